@@ -97,4 +97,11 @@ PROPS = {
         "rule": "real ceremonies with real airgapped machines and hot nodes for (n,t) in {(2,2),(3,2),(4,3),(5,2)} x 2 delivery orders [thorough: 7 configurations x 4 orders]: every machine's share must lie on its public polynomial (s_i*G = P(i+1)), all public polynomials equal with exactly t commitments, the constant term = commitment of the sum of the dealers' secrets = the key every node recorded, every hot node retains that polynomial, t-1 shares are refused by tbls.Recover. The extracted Coq Pedersen function recomputes every share from the dealers' secret coefficients (hook) in Z_r and must equal the machine's share scalar. Deviating announcements (other key / other polynomial, any position) are part of the C05 exploration alphabet.",
         "exhaustive": {"quick": False, "thorough": False}, "trusted_base": ["BLS12-381 arithmetic, pairing, hash-to-curve, ECIES and the Pedersen DKG bookkeeping are kyber's; prysm/blst is the independent verifier; the theorems are over an arbitrary field and module (MathComp) - that kyber's scalars form a field and its groups are modules over it is the algebraic contract, exercised on every run", "Z_r arithmetic of Crypto/Zr.v (extended Euclid, Horner) is executable and unproved; its results are compared with kyber's scalars on every run", "dealers' secret polynomials are read through the verif hook (dkg.VerifInstance)"], "assumptions": [],
     },
+    "C03": {
+        "props": "Props/C03.v", "scenarios": ["c03"],
+        "rule": "(A) 300 (3000) seeded proposals mixing explicit payloads (random bytes, empty non-nil, duplicate payloads, duplicate ids, file names with spaces / multibyte / invalid UTF-8 / empty) and baked ranges (anywhere in 0..18632, at the end of the list, empty, out of range, negative), after the JSON round trip every participant sees: requests.TasksToMessages against the extracted Coq expansion (byte-exact ids, files, payloads) and against an independent oracle (explicit = itself, range position = spec root recomputed with crypto/sha256). (B) a real cluster (3 nodes + 3 airgapped machines): 6 (40) batches through proposal -> operation -> airgapped -> partial signatures -> reconstruction -> store -> export; every partial signature is verified with kyber over the proposed bytes, every stored / exported tuple compared with the expansion, stored signatures verified with prysm.",
+        "exhaustive": {"quick": False, "thorough": False},
+        "trusted_base": ["JSON re-marshalling of the task list (message -> FSM -> operation -> airgapped) is Go's; it is on the exercised path", "baked payloads: see C17"],
+        "assumptions": ["'the proposal' is its JSON form on the board (encoding/json replaces invalid UTF-8 in names before anyone sees it)"],
+    },
 }
